@@ -115,6 +115,13 @@ func (c Case) writeDynamic(cols []ref.Column, reuse bool) ([]byte, error) {
 		}
 		w = parquet.NewWriter(sink, opts...)
 		perr := pq.ApplyOps(w, pq.Rows(c.Schema, cols, c.Prior.Expand()), c.PriorOps)
+		if c.FailAt%2 == 1 {
+			// key/value metadata given to the earlier file by a call (not by the options) belongs to that file
+			w.SetKeyValueMetadata("verif-prior-file", "1")
+			if len(c.Opts.KV) > 0 {
+				w.SetKeyValueMetadata(c.Opts.KV[0][0], "value of the earlier file")
+			}
+		}
 		if c.PriorMode != "abandoned" {
 			if cerr := w.Close(); perr == nil {
 				perr = cerr
